@@ -102,6 +102,12 @@ def run(tier: str, seed: int, rep: Report, model: Model) -> dict:
                                             "disabled, yet decorating with a scope provider did not simply return the function (or a check ran)"), **rr})
                 elif not en and got.get("provider_consulted"):
                     rep.violation({"what": "disabled, yet the scope provider was consulted", **rr})
+            # the function with an optional None and a tuple parameter: same reports as the reference run
+            want_opt = base.get("fn_opt") if en else ["accept"] * len(base.get("fn_opt", []))
+            rep.count(f"enabled_{en}:fn_opt:{'same' if r.get('fn_opt') == want_opt else 'differs'}")
+            if r.get("fn_opt") != want_opt:
+                rep.violation({"what": "verdicts / reports of calls with an optional None and a tuple parameter differ from the reference run" if en else
+                               "a check was performed although disabled", "expected": want_opt, "observed": r.get("fn_opt"), "enabled_arg": label, **rec})
             for kind in ("fn", "dc", "nt"):
                 want_identity = model.ask(f"(orig {kind} F {sx_bool(en)})") == "1"
                 rep.count(f"enabled_{en}:{kind}:identity_{r[kind + '_identity']}")
